@@ -21,7 +21,8 @@
 (*             (overlapping occurrences count; "" occurs once per byte);   *)
 (*  split    = pieces end WITH the delimiter, cut at non-overlapping       *)
 (*             occurrences left to right, plus a last piece if the string  *)
-(*             does not end with the delimiter; "" splits into bytes;      *)
+(*             does not end with the delimiter; the empty delimiter splits *)
+(*             into bytes; the empty string is one empty piece;            *)
 (*  replace  = non-overlapping occurrences, left to right; "" -> no-op;    *)
 (*  printable: bytes >= 0x80 are either kept or written \xHH (both are     *)
 (*             accepted: the statement does not say which).                *)
@@ -163,7 +164,9 @@ Expected(c) ==
       [] c.fn = "substr1" -> SubStr1(c.s1, c.n1)
       [] c.fn = "substr2" -> SubStr2(c.s1, c.n1, c.n2)
       [] c.fn = "subfromtill" -> SubFromTill(c.s1, c.n1, c.n2)
-      [] c.fn = "split" -> IF c.s2 = <<>> THEN [i \in 1..Len(c.s1) |-> <<c.s1[i]>>] ELSE SplitBy(c.s1, c.s2)
+      [] c.fn = "split" -> IF c.s2 = <<>> THEN [i \in 1..Len(c.s1) |-> <<c.s1[i]>>]
+                           ELSE IF c.s1 = <<>> THEN <<<<>>>>                        \* the empty string is one (empty) piece
+                           ELSE SplitBy(c.s1, c.s2)
       [] c.fn = "replacech" -> ReplaceChar(c.s1, c.n1, c.n2)
       [] c.fn = "replacestr" -> ReplaceSub(c.s1, c.s2, c.s3)
       [] c.fn = "lower" -> Lower(c.s1)
@@ -207,16 +210,26 @@ ResOK(c, res) ==
       [] OTHER -> res = Expected(c)
 
 -----------------------------------------------------------------------------
-(* Allocator events: <<1, id, size>> = buffer id of `size' bytes obtained, <<2, id, size>> = returned *)
-ApplyEv(st, e) ==
-    IF ~st.ok THEN st
-    ELSE IF e[1] = 1 THEN (IF e[3] >= 1 /\ ~(\E x \in st.live : x[1] = e[2])
-                           THEN [ok |-> TRUE, live |-> st.live \cup {<<e[2], e[3]>>}] ELSE [ok |-> FALSE, live |-> st.live])
-    ELSE (IF <<e[2], e[3]>> \in st.live                       \* live id AND the size it was requested with
-          THEN [ok |-> TRUE, live |-> st.live \ {<<e[2], e[3]>>}] ELSE [ok |-> FALSE, live |-> st.live])
-RECURSIVE ApplyFrom(_, _, _)
-ApplyFrom(st, ev, i) == IF i > Len(ev) THEN st ELSE ApplyFrom(ApplyEv(st, ev[i]), ev, i + 1)
-ApplyEvs(L, ev) == ApplyFrom([ok |-> TRUE, live |-> L], ev, 1)
+(* Allocator events: <<1, id, size>> = buffer id of `size' bytes obtained, <<2, id, size>> = returned.            *)
+(* ApplyEvs(L, ev) = [ok, live]: ok iff every buffer obtained has a fresh id and a size >= 1, and every release   *)
+(* names a buffer that is outstanding at that moment (in L, or obtained earlier in ev) WITH the size it was       *)
+(* requested with, and no buffer is released twice.  Written with quantifiers, not recursion: one call can        *)
+(* cause a thousand events (formatters building a string piecewise).                                              *)
+ApplyEvs(L, ev) ==
+    LET Allocs == { i \in 1..Len(ev) : ev[i][1] = 1 }
+        Frees == { i \in 1..Len(ev) : ev[i][1] = 2 }
+        AllocIds == { ev[i][2] : i \in Allocs }
+        FreeIds == { ev[i][2] : i \in Frees }
+        LIds == { x[1] : x \in L }
+        ok == /\ Allocs \cup Frees = 1..Len(ev)
+              /\ \A i \in Allocs : ev[i][3] >= 1 /\ ev[i][2] \notin LIds
+              /\ Cardinality(AllocIds) = Cardinality(Allocs)                       \* fresh ids
+              /\ Cardinality(FreeIds) = Cardinality(Frees)                         \* nothing is returned twice
+              /\ \A f \in Frees : \/ <<ev[f][2], ev[f][3]>> \in L                  \* outstanding, same size
+                                   \/ \E a \in Allocs : a < f /\ ev[a][2] = ev[f][2] /\ ev[a][3] = ev[f][3]
+    IN [ok |-> ok,
+        live |-> { x \in L : x[1] \notin FreeIds } \cup
+                 { <<ev[a][2], ev[a][3]>> : a \in { b \in Allocs : ev[b][2] \notin FreeIds } }]
 
 -----------------------------------------------------------------------------
 VARIABLES val,     \* [1..NObj -> content | NoObj]
@@ -229,9 +242,11 @@ Exists(i) == val[i] # NoObj
 Init == val = [i \in Objs |-> NoObj] /\ live = {} /\ res = <<>>
 
 \* a pure function call on fresh operands: result as specified, every buffer it obtained is returned
+\* (the guards are written `(...) = TRUE' so that TLC evaluates them as state predicates: inside an action it
+\*  would unfold a quantifier over a 400-byte buffer recursively and exhaust its stack)
 Pure(c, r, ev) ==
-    /\ Pre(c) /\ ResOK(c, r)
-    /\ LET st == ApplyEvs(live, ev) IN st.ok /\ st.live = live
+    /\ (Pre(c) /\ ResOK(c, r)) = TRUE
+    /\ (LET st == ApplyEvs(live, ev) IN st.ok /\ st.live = live) = TRUE
     /\ res' = r /\ UNCHANGED <<val, live>>
 
 \* Object calls: o = [fn, i, j, k, s1, s2, n1, n2]
@@ -263,9 +278,10 @@ ObjPost(o) ==
       [] o.fn = "printable" -> {[val EXCEPT ![o.i] = p] : p \in Printables(val[o.j])}
       [] o.fn = "end" -> {[i \in Objs |-> NoObj]}
 Obj(o, ev) ==
-    /\ o.fn \in ObjFns /\ ObjPre(o)
+    /\ (o.fn \in ObjFns /\ ObjPre(o)) = TRUE
     /\ val' \in ObjPost(o)
-    /\ LET st == ApplyEvs(live, ev) IN st.ok /\ live' = st.live
+    /\ ApplyEvs(live, ev).ok = TRUE
+    /\ live' = ApplyEvs(live, ev).live
     /\ res' = <<>>
 
 -----------------------------------------------------------------------------
